@@ -750,8 +750,81 @@ def minimise(prog1, kind, deadline, clock):
 
 
 # ------------------------------------------------------------------ worker
+# ---------------------------------------------------------------- rebinding a borrowed parameter
+# Python rebinds only the callee's local name, so the caller keeps the value with the in-place
+# updates made before; Guppy must either reject the rebinding (it does, "Borrow shadowed") or behave
+# like that.  Enumerated: binding form x position x parameter type.
+REBIND_FORMS = {
+    "plain": "{p} = {new}",
+    "tuple": "{p}, k_ = {new}, 1",
+    "tuple_rev": "k_, {p} = 1, {new}",
+    "nested": "(k_, {p}), j_ = (1, {new}), 2",
+    "for": "for {p} in array({new}, {new}):\n{ind}    pass",
+    "starred": "k_, *{p} = array(7, 8, 9, 6)",
+    "walrus": "k_ = len(({p} := {new}))",
+    "aug": "{p} += {new}",
+}
+REBIND_POS = {
+    "entry": "{stmt}",
+    "if": "if c:\n    {stmt}",
+    "else": "if c:\n    pass\nelse:\n    {stmt}",
+    "while": "n_ = 0\nwhile n_ < 1:\n    n_ += 1\n    {stmt}",
+    "after_if": "if c:\n    k0_ = 1\n{stmt}",
+    "nested_if": "if c:\n    if c:\n        {stmt}",
+}
+
+
+def rebind_cases():
+    out = []
+    for fname, form in sorted(REBIND_FORMS.items()):
+        for pname, pos in sorted(REBIND_POS.items()):
+            for c in ("True", "False"):
+                ind = "    " * (pos.split("{stmt}")[0].split("\n")[-1].count("    "))
+                stmt = form.format(p="xs", new="array(9, 9, 49)", ind=ind)
+                stmt = stmt.replace("\n", "\n" + ind)
+                body = pos.format(stmt=stmt)
+                src = ("@guppy\ndef f(xs: array[int, 3], c: bool) -> None:\n    xs[0] += 10\n"
+                       + "".join("    " + l + "\n" for l in body.split("\n"))
+                       + "    xs[1] += 5\n\n@guppy\ndef main() -> None:\n    ys = array(1, 2, 3)\n    f(ys, " + c + ")\n"
+                       "    result(\"c0:ys\", ys)\n")
+                out.append({"form": fname, "pos": pname, "c": c, "src": src})
+    return out
+
+
+def eval_rebind(case):
+    """-> (status, detail): rejected | ok | mismatch | other"""
+    st_, pay = run_program(case["src"], 1)
+    if st_ == "rejected":
+        return "rejected", pay[0]
+    if st_ == "ok":
+        from vlib import pyref
+
+        emu, ref = pay
+        for k in sorted(set(emu) | set(ref)):
+            if not pyref.streams_equal(emu.get(k, []), ref.get(k, [])):
+                return "mismatch", f"{k}: emulator {emu.get(k)} vs Python reference {ref.get(k)}\n{case['src']}"
+        return "ok", ""
+    if st_ == "generr":
+        return "generr", str(pay)
+    return "other", f"{st_}: {pay[0]}\n{pay[1]}\n{case['src']}"
+
+
 def worker(ctx):
     import time
+
+    # enumerated rebinding family (split over the shards)
+    for i, case in enumerate(rebind_cases()):
+        if i % ctx.nshards != ctx.shard:
+            continue
+        r, detail = eval_rebind(case)
+        ctx.case(("rebind", case["form"], case["pos"], case["c"]), True, labels=["rebind", "rebind:" + r, "rebind_form:" + case["form"]],
+                 sample={"rebind": case["form"], "pos": case["pos"], "outcome": r})
+        if r == "mismatch":
+            ctx.violation(f"rebind.accepted_caller_sees_new_value.{case['form']}", {"src": case["src"], "bucket": f"rebind.accepted_caller_sees_new_value.{case['form']}", "qubits": 1}, detail)
+        elif r == "other":
+            ctx.violation(f"rebind.{detail.split(':')[0]}.{case['form']}", {"src": case["src"], "qubits": 1}, detail)
+        elif r == "generr" and "SyntaxError" not in detail and "pyref" not in detail:
+            ctx.harness_error("rebind family: " + detail[:500])
 
     from hypothesis import strategies as st
 
